@@ -16,6 +16,12 @@ class Episode:
         self.env_trace = []   # per env.step: (action, reward, terminated, truncated, info)
 
 
+def env_sx(tracer, env):
+    codec = tracer.codec_for(env.instance, env.config)
+    return jsl.sx(trace.result_sx(codec, env.state), trace.mw_sx(env.state_simulator),
+                  "1" if env.terminated else "0", "1" if env.truncated else "0", str(len(env.history)))
+
+
 def run_episode(tracer, d, cfg, policy, max_steps=400, env_hook=None, seed=None):
     """Returns (env or None, end, actions, env_trace)."""
     actions = []
@@ -36,18 +42,33 @@ def run_episode(tracer, d, cfg, policy, max_steps=400, env_hook=None, seed=None)
     for _ in range(max_steps):
         a = policy(env)
         actions.append(a)
+        pre_env = env_sx(tracer, env) if tracer.record_env else None
+        n0 = len(tracer.records)
         try:
             obs, rew, term, trunc, info = env.step(a)
+            if pre_env is not None:
+                lg = jsl.sxl(jsl.sx(m[1], m[2]) for rec in tracer.records[n0:] for m in (rec.micro or []))
+                mk = info.get("makespan")
+                tracer.env_records.append((tracer.codec_for(env.instance, env.config), pre_env, a,
+                                           jsl.sx("ok", env_sx(tracer, env), lg, "-" if mk is None else str(mk))))
         except jsl.StepBudgetExceeded:
             end = "budget"
             break
         except trace.ImplRaised as e:
             end = "raise:" + e.cls
+            if pre_env is not None:
+                tracer.env_records.append((tracer.codec_for(env.instance, env.config), pre_env, a, "(raise %s)" % e.cls))
             break
         except jsl.Unsupported:
             raise
         except Exception as e:
             end = "raise:" + type(e).__name__
+            if pre_env is not None and type(e).__name__ != "ZeroDivisionError":
+                tracer.env_records.append((tracer.codec_for(env.instance, env.config), pre_env, a,
+                                           "(raise %s)" % type(e).__name__))
+            if type(e).__name__ == "ActionOutOfActionSpace":
+                et.append((a, None, None, None, {"raised": "ActionOutOfActionSpace"}))
+                continue
             break
         et.append((a, rew, term, trunc, info))
         if env_hook:
